@@ -28,7 +28,9 @@ RULE = ('k=2-3 (quick, exhaustive) / up to 5 (thorough) handlers on one event, '
         'afterwards, after gc.collect() every dropped handler is dead, and a '
         'further dispatch reaches exactly the survivors. Non-trivial = the '
         'victim died inside the dispatch while it had not yet received the '
-        'event (still pending in the snapshot).')
+        'event (still pending in the snapshot).'
+        ' Rounds 11-13 added: the program queries the world before dropping;'
+        ' liveness of a dropped victim checked inside the running dispatch.')
 ANCHORS = [
     'desper/events.py::EventDispatcher.add_handler',
     'desper/events.py::EventDispatcher._remove_weak_handler',
